@@ -24,10 +24,41 @@ Lemma gen_suffixes_deployed :
   list_eqb String.eqb gen_rejected_suffixes deployed_suffixes = true.
 Proof. vm_compute. reflexivity. Qed.
 
-(** Server.dial is the statement sequence [decide] models. *)
+(** Server.dial: in the emitted statements the lookup is followed at once by
+    a guard that fires whenever the lookup returned an error - whatever the
+    first result is - and returns a non-nil error.  This is the premise of
+    [lookup_error_always_refuses]. *)
+Lemma gen_dial_lookup_err_guarded : lookup_err_guarded gen_dial_steps = true.
+Proof. vm_compute. reflexivity. Qed.
+
+(** Server.dial is the statement sequence [decide] is the closed form of. *)
 Lemma gen_dial_steps_deployed :
   list_eqb dial_step_eqb gen_dial_steps deployed_dial_steps = true.
 Proof. vm_compute. reflexivity. Qed.
+
+Lemma gen_dial_steps_eq : gen_dial_steps = deployed_dial_steps.
+Proof. reflexivity. Qed.
+
+(** The emitted statements of isRejectedDomain and Server.dial, interpreted,
+    are the closed form: every theorem about [decide] is a theorem about the
+    code as emitted. *)
+Lemma gen_run_host_decide is_ip cfg sni :
+  run_host is_ip gen_rejected_steps gen_dial_steps cfg sni
+  = decide is_ip gen_rejected_suffixes cfg sni.
+Proof.
+  rewrite gen_rejected_steps_eq, gen_dial_steps_eq, gen_suffixes_eq.
+  apply run_host_deployed.
+Qed.
+
+(** A name for which the lookup returns an error - alone, or together with a
+    destination - is refused by the emitted Server.dial. *)
+Lemma gen_lookup_error_always_refuses cfg sni :
+  has_lookup cfg = true ->
+  lk_err (lookup cfg sni) = true ->
+  refusal (run_dial cfg sni gen_dial_steps st0) = true /\
+  served (run_dial cfg sni gen_dial_steps st0) = false /\
+  endpoint_dials (run_dial cfg sni gen_dial_steps st0) = [].
+Proof. exact (lookup_error_always_refuses gen_dial_steps cfg sni gen_dial_lookup_err_guarded). Qed.
 
 (** hostConn: same calls in the same order; the rejection test comes before
     the one and only dial. *)
